@@ -36,9 +36,9 @@ def case(ctx, i, rec):
         ts, r = zoo.sim(rng, n=int(rng.integers(3, 12)))
         ts, picked = zoo.flag_internal_sample(ts, rng, k=int(rng.integers(1, 4)))
     elif kind == "historical":
-        ts, r = zoo.sim_historical(rng)
+        ts, r = zoo.sim_historical(rng); ts, _ = zoo.extra_flags(ts, rng) if rng.random() < 0.7 else (ts, 0)
     elif kind == "hist_internal":
-        ts, r = zoo.sim_historical(rng)
+        ts, r = zoo.sim_historical(rng); ts, _ = zoo.extra_flags(ts, rng) if rng.random() < 0.7 else (ts, 0)
         ts, picked = zoo.flag_internal_sample(ts, rng, k=int(rng.integers(1, 3)))
     elif kind == "inferred_internal":
         try:
